@@ -35,7 +35,7 @@ CONSTS = {
     # chain run = exhaustive def-use chain family (one atom per right hand side, only defined symbols are read)
     "quick": (
         dict(NSyms=3, MaxLen=3, MaxUses=2, MaxGuards=1, WithODE="TRUE", MaxFeat=3, MaxAdm=5, MinEmit=1, MinCands=0, MaxRmSet=1, SampleMod=64, Thin=1, FullDepth=0, ChainMode="FALSE"),
-        dict(NSyms=4, MaxLen=6, MaxUses=2, MaxGuards=2, WithODE="TRUE", MaxFeat=9, MaxAdm=4, MinEmit=5, MinCands=0, MaxRmSet=2, SampleMod=2, Thin=112, FullDepth=1, ChainMode="FALSE"),
+        dict(NSyms=4, MaxLen=6, MaxUses=2, MaxGuards=2, WithODE="TRUE", MaxFeat=9, MaxAdm=4, MinEmit=5, MinCands=0, MaxRmSet=2, SampleMod=2, Thin=160, FullDepth=1, ChainMode="FALSE"),
         dict(NSyms=4, MaxLen=5, MaxUses=1, MaxGuards=0, WithODE="FALSE", MaxFeat=9, MaxAdm=5, MinEmit=4, MinCands=3, MaxRmSet=1, SampleMod=1, Thin=1, FullDepth=0, ChainMode="TRUE"),
     ),
     "thorough": (
